@@ -130,8 +130,14 @@ def check(col: Collector, tier: str):
                     kind = mm.group(2)
             branches[kind] = c
     col.floor("C18.R4", 4)
-    col.add("C18.R4", vc.short, "dispatch-by-exact-type", set(branches) == {"str", "int", "float", "bool"},
-            f"constant kinds dispatched by `type(value) is T`: {sorted(str(k) for k in branches)} (isinstance would treat True as an int)", vc.loc)
+    uses_isinstance = any(isinstance(c, ast.Call) and call_name(c) == "isinstance" and "value" in src(c.args[0]) for c in walk_no_nested(fn))
+    if set(branches) != {"str", "int", "float", "bool"} and not uses_isinstance:
+        col.defer("visit_Constant is not a chain of `type(value) is T` branches that each build a cpp_value (unrecognised refactoring): "
+                  "the per-kind constant rules C18.R1/R2/R3/R4/R6 cannot be decided on this shape")
+        branches = {}
+    else:
+        col.add("C18.R4", vc.short, "dispatch-by-exact-type", set(branches) == {"str", "int", "float", "bool"},
+                f"constant kinds dispatched by `type(value) is T`: {sorted(str(k) for k in branches)} (isinstance would treat True as an int)", vc.loc)
     # R1 str branch
     if "str" in branches:
         ps = parts(fn, branches["str"].args[0])
@@ -186,8 +192,9 @@ def check(col: Collector, tier: str):
         col.add("C18.R4", vc.short, "bool-renders-true/false", ok, f"bool constant renders {src(v)}", vc.loc)
     paths = enumerate_paths(fn)
     unhandled = [p for p in paths if p.status != "raise" and not any(e.kind == "call" and call_name(e.node) == "set_rep" for e in p.events)]
-    col.add("C18.R4", vc.short, "other-kinds-raise", not unhandled and any(p.status == "raise" for p in paths),
-            "a constant of any other kind (None, bytes, complex, ...) must raise; no path may return without publishing a representation", vc.loc)
+    if branches:
+        col.add("C18.R4", vc.short, "other-kinds-raise", not unhandled and any(p.status == "raise" for p in paths),
+                "a constant of any other kind (None, bytes, complex, ...) must raise; no path may return without publishing a representation", vc.loc)
 
     # ------------------------------------------------------------ R5 verbatim transport
     check_substitution(col, repo, "C18.R5")
@@ -211,7 +218,7 @@ def check(col: Collector, tier: str):
                and call_name(c) in ("get_rep", "set_rep") and src(c.func.value).endswith("_gc")]
     extra_calls = [call_name(c) for c in walk_no_nested(fn) if isinstance(c, ast.Call) and isinstance(c.func, ast.Attribute)
                    and isinstance(c.func.value, ast.Name) and c.func.value.id == "self" and call_name(c) not in ()]
-    col.add("C18.R7", vc.short, "fresh-representation-per-constant", not lookups and len(branches) == 4,
+    col.add("C18.R7", vc.short, "fresh-representation-per-constant", not lookups,
             f"visit_Constant must build a new cpp_value for every constant node; block-level cache lookups found: {lookups}", vc.loc)
 
 
